@@ -100,6 +100,13 @@ class CallMixin(object):
       allargs = list(args) + [kw[k] for k in sorted(kw)]
       yield st, self.pure_app(path, allargs, self.contract.pure[path], st)
       return
+    if path == 'copy.copy' and len(args) == 1 and not kw and isinstance(args[0], VRef) and args[0].ty.kind in ('set', 'dict'):
+      # shallow copy of a set / dict: a fresh container with the same contents
+      if args[0].ty.kind == 'set':
+        yield st, ops.new_set(st, as_setpred(args[0], st), args[0].ty)
+      else:
+        yield st, ops.copy_dict(st, args[0].t, args[0].ty)
+      return
     if self.mode == 'event' and self.contract is not None and path in self.contract.callbacks:
       # declared observable in this contract (e.g. a constructor whose arguments matter)
       yield from self.call_opaque(None, args, kw, st, star, dstar, kind='call', label=path)
@@ -737,6 +744,14 @@ class CallMixin(object):
     elif meth == 'update':
       if self.mode == 'event':
         yield from self.call_opaque(VBound(d, 'update'), args, kw, st)
+        return
+      if len(args) == 1 and not kw and isinstance(args[0], VRef) and args[0].ty.kind == 'dict':
+        # d.update(other dict): keys of other are added / overwritten with other's values
+        o = args[0].t
+        olddom, oldval = h.dom, h.val
+        st.heap = st.heap.with_('dom', lambda x, k: z3.If(x == d.t, z3.Or(olddom(d.t, k), olddom(o, k)), olddom(x, k))) \
+                         .with_('val', lambda x, k: z3.If(z3.And(x == d.t, olddom(o, k)), oldval(o, k), oldval(x, k)))
+        yield st, VNone
         return
       raise Unsupported('dict.update')
     else:
